@@ -166,7 +166,7 @@ impl Driver {
             loop {
                 match rx.recv().await {
                     Ok(h) => {
-                        let in_store = store.has_at(h.height()).await;
+                        let in_store = store.has(&h.hash()).await;
                         on_delivery(&ctx, &mut log.lock().unwrap(), h0, h.height(), in_store);
                     }
                     Err(RecvError::Lagged(n)) => on_lag(&ctx, &mut log.lock().unwrap(), n),
@@ -181,7 +181,7 @@ impl Driver {
             let r = self.slow[i].rx.try_recv();
             match r {
                 Ok(h) => {
-                    let in_store = self.store.has_at(h.height()).await;
+                    let in_store = self.store.has(&h.hash()).await;
                     on_delivery(&self.ctx, &mut self.slow[i].log.lock().unwrap(), self.h0, h.height(), in_store);
                 }
                 Err(TryRecvError::Lagged(n)) => on_lag(&self.ctx, &mut self.slow[i].log.lock().unwrap(), n),
@@ -267,6 +267,7 @@ async fn drive(ctx: Arc<RunCtx>) {
     ctx.ev("setup", h0, h_top);
 
     let store = Arc::new(InMemoryStore::new());
+    let mut frng = ctx.fixture_rng(37);
     let mut d = Driver {
         ctx: ctx.clone(),
         chain: chain.clone(),
@@ -321,7 +322,7 @@ async fn drive(ctx: Arc<RunCtx>) {
         ctx.begin_span("op");
         // 0 announce a range of (H0, H], 1 historical range, 2 re-initialisation, 3 subscribe,
         // 4 drain a slow subscriber. Once the op budget is used up only 0 remains (finishing).
-        let kind = if budget_left { ctx.weighted("op.kind", &[10, 2, 2, 2, 3]) } else { 0 };
+        let kind = if budget_left { ctx.weighted("op.kind", &[10, 2, 2, 2, 3, 2]) } else { 0 };
         match kind {
             0 if !missing_above.is_empty() => {
                 let store_head = d.stored.iter().next_back().copied().unwrap_or(h0);
@@ -385,6 +386,38 @@ async fn drive(ctx: Arc<RunCtx>) {
                     ctx.ev("reinit.same_head", store_head, 0);
                     ctx.fault("reconnection_same_head");
                     d.bc.init_broadcast(chain.get(store_head).clone());
+                }
+            }
+            5 if !missing_above.is_empty() => {
+                // an insert the store refuses (what a Byzantine peer's batch, or a batch overtaken
+                // by events, looks like to the syncer): nothing of it may ever reach a subscriber
+                let store_head = d.stored.iter().next_back().copied().unwrap_or(h0);
+                let (ga, gb) = missing_above[ctx.choose("rej.gap", missing_above.len() as u32) as usize];
+                if gb < store_head {
+                    // the gap is closed from above by a stored header
+                    let len = ctx.range("rej.len", 1, max_part.min(gb - ga + 1));
+                    if ctx.coin("rej.forged", 600) || gb - ga + 1 < 3 {
+                        // a fork placed right below the stored header gb+1: the upper neighbour
+                        // does not link to it
+                        let lo = gb + 1 - len;
+                        let forged = chain.fork(&mut frng, lo, gb);
+                        ctx.ev("announce.rejected_fork", lo, gb);
+                        ctx.fault("insert_rejected_by_neighbour_verification");
+                        if d.bc.announce_insert(forged).await.is_ok() {
+                            ctx.note("unexpected", format!("forged range {lo}..={gb} below stored {} was accepted", gb + 1));
+                            d.stored.extend(lo..=gb);
+                        }
+                    } else {
+                        // honest headers touching neither end of the gap: no adjacent neighbour
+                        let lo = ga + 1;
+                        let hi = (lo + len - 1).min(gb - 1);
+                        ctx.ev("announce.rejected_island", lo, hi);
+                        ctx.fault("insert_rejected_by_constraints");
+                        if d.bc.announce_insert(d.headers(lo, hi)).await.is_ok() {
+                            ctx.note("unexpected", format!("island {lo}..={hi} inside gap {ga}..={gb} was accepted"));
+                            d.stored.extend(lo..=hi);
+                        }
+                    }
                 }
             }
             3 if d.logs.len() < 6 => {
